@@ -18,6 +18,8 @@ import TboxModel.C12.ProofsWire
 import TboxModel.C12.ProofsResp
 import TboxModel.C12.ProofsUrl
 import TboxModel.C12.ProofsServer
+import TboxModel.C12.ProofsUrlAbs
+import TboxModel.C12.ProofsReq
 namespace Tbox.C12
 
 /-! ## A. parser and feed loop -/
@@ -491,17 +493,86 @@ theorem C12_url_roundtrip_path (path : Bytes) (hp : path.head? = some 47) :
     parseUrlPath (urlPathToString ⟨path, [], [], []⟩) = some ⟨path, [], [], []⟩ :=
   urlPath_roundtrip_path path hp
 
+/-- C12_url_path_roundtrip: `StringToUrlPath (UrlPathToString u) = u` for EVERY path value that is
+well-formed (`UrlPath.wf`, decidable): the path starts with '/', the parameter and query maps are
+key-sorted (they are `std::map`s) with non-empty keys, the fragment has none of `% ; ?`. Keys,
+values and the path itself are arbitrary byte strings — all 256 byte values, delimiters included;
+percent-encoding makes them safe. (In particular every fragment-free value with non-empty keys.) -/
+theorem C12_url_path_roundtrip (u : UrlPath) (hw : u.wf = true) : parseUrlPath (urlPathToString u) = some u :=
+  urlPath_roundtrip u hw
+
+/-- non-vacuity: keys / values made of delimiters, NUL and high bytes, an empty value, a fragment with '#', '=' -/
+example : (UrlPath.mk (ascii "/a b;?#") [([0, 255], [37, 59]), (ascii "k", [])] [(ascii "&=", ascii "?"), (ascii "k", ascii "v")]
+    (ascii "f#=&")).wf = true := by decide
+
+/-- each clause of `UrlPath.wf` is needed (1): a key that is empty is printed as "?=1", which the parser rejects … -/
+theorem C12_url_path_roundtrip_counterexample_key :
+    parseUrlPath (urlPathToString ⟨ascii "/p", [], [([], ascii "1")], []⟩) = none := by decide +kernel
+
+/-- … and such a value is reachable by parsing: "/p?%=1" is accepted (the truncated escape is dropped) -/
+theorem C12_url_reparse_counterexample :
+    parseUrlPath (ascii "/p?%=1") = some ⟨ascii "/p", [], [([], ascii "1")], []⟩ := by decide +kernel
+
+/-- (2) a ';' in the fragment is taken for the parameter delimiter when there are no parameters -/
+theorem C12_url_path_roundtrip_counterexample_frag :
+    parseUrlPath (urlPathToString ⟨ascii "/a", [], [], ascii "x;y=z"⟩) = some ⟨ascii "/a#x", [(ascii "y", ascii "z")], [], ascii "x;y=z"⟩ := by
+  decide +kernel
+
+/-- (3) a path that does not start with '/' is refused -/
+theorem C12_url_path_roundtrip_counterexample_path :
+    parseUrlPath (urlPathToString ⟨ascii "a", [], [], []⟩) = none := by decide +kernel
+
+/-- C12_url_total: the URL parsers are total on arbitrary bytes. `StringToUrl` (the only one with
+`substr` calls outside a `try`) never leaves through an exception — every position it passes to
+`substr` is within the string; every position `StringToUrlPath` / `StringToUrlHost` cut at comes from
+a successful `find_first_of` and is therefore inside the string (so `pos + 1 ≤ size`, the only
+condition `substr` has); all other failures (`UrlDecode` on a bad hex digit, `std::stoi`) are caught
+inside the functions and become `return false` (`none` / `.fail` in the model, which is total). -/
+theorem C12_url_total (s : Bytes) :
+    stringToUrl s ≠ .threw ∧
+    (∀ c i, findByte c s = some i → i + 1 ≤ s.length) ∧
+    (∀ i, findSub (ascii "://") s = some i → i + 3 ≤ s.length) :=
+  ⟨stringToUrl_no_throw s, fun _ _ h => findByte_lt h, fun _ h => findSub_le h⟩
+
+/-- StringToUrl on hostile input: rejected (bad escape in the host; port without digits), accepted with a
+port reduced modulo 65536 (std::stoi → uint16_t, as coded) -/
+example : stringToUrl (ascii "http://%zz/p") = .fail ∧ stringToUrl (ascii "h:/p") = .fail ∧
+    stringToUrl (ascii "x://h:65616/") = .ok ⟨ascii "x", ⟨[], [], ascii "h", 80⟩, ⟨ascii "/", [], [], []⟩⟩ := by decide +kernel
+
 /-
--- OPEN: `StringToUrlPath (UrlPathToString u) = u` for every fragment-free UrlPath whose parameter / query
--- maps are key-sorted with NON-EMPTY keys. The hypotheses are all needed: the fragment is printed unencoded
--- (next theorem) and a key that decodes to "" (target "/p?%=1": the truncated escape is dropped) is printed as
--- "?=1", which the parser rejects (found by the `rt=` field of the tie). Proved so far: the codec round trip,
--- "the encoder never emits ; ? # = &" (ProofsUrl.urlEncode_clean) and the path-only case above; the remaining
--- step (Split over the joined encodings and `foldl mapInsert` over a key-sorted list being the identity)
--- is not closed. The tie compares `StringToUrlPath(UrlPathToString(url)) == url` for every delivered request.
--- StringToUrl / UrlToString / UrlHostToString / StringToUrlHost (absolute URLs) are called from nowhere in
--- the library except their unit tests and are not on any path of the HTTP server: out of C12's scope.
+-- OPEN: `StringToUrlHost (UrlHostToString h) = h` for `UrlHost.wf` values and `StringToUrl (UrlToString u) = u` for
+-- `Url.wf` values (absolute URLs; Url.lean states the predicates: user / password / host are printed UNENCODED, so they
+-- must not contain `% @ : /`, a password needs a user, the scheme is non-empty without ':'). Not proved in Lean; the tie
+-- evaluates both sides of these equations on every run (`rt=` field of ops `url` / `mkurl`, 256 byte values per position)
+-- and the model agrees with the code on all of them, including the values outside the predicates, e.g.
+-- user "u", password "//x" prints "u://x@h/" which reads back as scheme "u" (rt=0 on both sides).
+-- These four functions are called from nowhere in the library except their unit tests; they are not on any path of the HTTP server.
 -/
+
+/-! ### what the handler receives / what `Request::toString` prints -/
+
+/-- C12_request_roundtrip (parse ∘ render): for every request value that `Request::toString` prints
+unambiguously (`Req.printable`, decidable: table method / version, well-formed target, key-sorted
+header map with printable entries, any body incl. CR/LF/NUL bytes) and whatever follows it in the
+buffer, one `parse` call from `kInit` returns exactly this request — same method, target (path,
+parameters, query, fragment), version, body, and the header map plus the `Content-Length` entry the
+printer always adds — consumes exactly the printed bytes and leaves the rest. -/
+theorem C12_request_roundtrip (r : Req) (hp : r.printable = true) (rest : Bytes) :
+    parse Cfg.fixed PState.init (r.render ++ rest) =
+      .ok ⟨.all, { r with headers := mapInsert (ascii "Content-Length") (decimal r.body.length) r.headers },
+           some r.body.length⟩ rest :=
+  parse_render r hp rest
+
+/-- non-vacuity: a request with parameters, an escaped query key, two headers and a body with CR LF NUL -/
+example : tablesStd = true →
+    (Req.mk "kPost" ⟨ascii "/a b", [(ascii "k", ascii ";")], [(ascii "q=", [0, 255])], ascii "frag"⟩ "k1_1"
+      [(ascii "Host", ascii "h:80"), (ascii "X-A", ascii "a  b")] [13, 10, 0, 65]).printable = true := by decide +kernel
+
+/-- the hypothesis on header values is needed: a value with surrounding spaces comes back stripped -/
+theorem C12_request_roundtrip_counterexample : tablesStd = true →
+    (match parse Cfg.fixed PState.init (Req.mk "kGet" ⟨ascii "/", [], [], []⟩ "k1_1" [(ascii "X", ascii " v ")] []).render with
+     | .ok ps _ => ps.req.headers.lookup (ascii "X")
+     | _ => none) = some (ascii "v") := by decide +kernel
 
 /-- the fragment is printed unencoded but decoded when parsed: "%41" comes back as "A" -/
 theorem C12_url_roundtrip_counterexample :
